@@ -672,7 +672,16 @@ class HL:
                 if self.ndiverge > 3:
                     cpu = 250
             lines.append("%s %s %d %d" % ("fprobe", hx(s), LIMIT, cpu) if fork else "probe %s %d" % (hx(s), LIMIT))
-        return self.impl(lines), m
+        out = self.impl(lines)
+        # a timeout / memory ceiling ALONE (nothing predicts it) is tried once more, in a forked probe of its own with
+        # three times the CPU ceiling: on a loaded machine the CPU clock of a sanitized process runs fast
+        again = [i for i, (a, b) in enumerate(zip(out, m)) if a in ("timeout", "oom") and b != "diverge"][:12]
+        if again:
+            self.nretried = getattr(self, "nretried", 0) + len(again)
+            second = self.impl(["fprobe %s %d %d" % (hx(strings[i]), LIMIT, 6000) for i in again])
+            for i, a in zip(again, second):
+                out[i] = a
+        return out, m
 
 
 # ------------------------------------------------------------------ CLI
